@@ -57,6 +57,45 @@ func (p *Prog) predicateView(i *ssa.If) (*ssa.If, bool) {
 	return nil, false
 }
 
+// helperImplies: the branch condition is (the negation of) a call of a bool
+// helper of the repository; returns the direction of the branch on which pred
+// is established, if the helper's results imply it.
+func (p *Prog) helperImplies(i *ssa.If, pred guardPred) (bool, bool) {
+	if p.implDepth > 2 {
+		return false, false
+	}
+	v := i.Cond
+	neg := false
+	if u, ok := v.(*ssa.UnOp); ok && u.Op == token.NOT {
+		v, neg = u.X, true
+	}
+	call, ok := v.(*ssa.Call)
+	if !ok {
+		return false, false
+	}
+	sf := call.Call.StaticCallee()
+	if sf == nil || !p.isRepoFn(sf) || len(sf.Blocks) < 2 || len(sf.Blocks) > 12 {
+		return false, false
+	}
+	// inside the helper, its parameters stand for the call's arguments
+	inner := func(j *ssa.If) (bool, bool) {
+		c2, _ := substParams(sf, call.Call.Args, j.Cond, 0)
+		if c2 != j.Cond {
+			return pred(&ssa.If{Cond: c2})
+		}
+		return pred(j)
+	}
+	p.implDepth++
+	defer func() { p.implDepth-- }()
+	if impliesGuard(p, sf, 0, inner, false) {
+		return !neg, true
+	}
+	if impliesGuard(p, sf, 0, inner, true) {
+		return neg, true
+	}
+	return false, false
+}
+
 func (p *Prog) guardedBy(in ssa.Instruction, pred guardPred) *ssa.If {
 	b := in.Block()
 	fn := b.Parent()
@@ -71,6 +110,13 @@ func (p *Prog) guardedBy(in ssa.Instruction, pred guardPred) *ssa.If {
 				if d2, ok2 := pred(v); ok2 {
 					dir, ok = d2 != flip, true
 				}
+			}
+		}
+		if !ok {
+			// a predicate helper with several returns (`switch s.state { case a, b: return true }; return false`):
+			// what its result implies is inferred from the tests its returns lie under
+			if d2, ok2 := p.helperImplies(i, pred); ok2 {
+				dir, ok = d2, true
 			}
 		}
 		if !ok {
@@ -1034,5 +1080,70 @@ func ruleVerdictStore(c *Ctx) {
 		// and only while the subscription is alive
 		g := p.guardedBy(st, fieldCmpGuard(fState, 7, func(v int64) bool { return v != 0 }))
 		c.check(g != nil, name, "late access answers are absorbed after dispose", pos, "dominated by the not-disposed edge of s.state", "access answer task touches a disposed subscription")
+	}
+}
+
+// stateSetEv is the event a Branch hook emits for a test of an enumerated
+// state field: the set of values (0..n-1) the field may have on that edge.
+func stateSetEv(base string, set map[int64]bool, n int64) Ev {
+	var ss []string
+	for v := int64(0); v < n; v++ {
+		if set[v] {
+			ss = append(ss, fmt.Sprint(v))
+		}
+	}
+	return Ev{Kind: "stateset", Note: base + "|" + strings.Join(ss, ",")}
+}
+
+// foldStateSets intersects, per path and per tested object, the sets of all
+// stateset events (a range comparison and an explicit list of states give the
+// same intersection) and replaces them by one event of the kind verdict
+// returns for the intersection (dropped if ""), placed where the last test was.
+func foldStateSets(tr *Tracer, n int64, verdict func(may map[int64]bool) string) {
+	for pi, path := range tr.Paths {
+		may := map[string]map[int64]bool{}
+		last := map[string]int{}
+		for k, e := range path {
+			if e.Kind != "stateset" {
+				continue
+			}
+			i := strings.LastIndex(e.Note, "|")
+			base, csv := e.Note[:i], e.Note[i+1:]
+			if may[base] == nil {
+				may[base] = map[int64]bool{}
+				for v := int64(0); v < n; v++ {
+					may[base][v] = true
+				}
+			}
+			allowed := map[string]bool{}
+			for _, x := range strings.Split(csv, ",") {
+				allowed[x] = true
+			}
+			for v := range may[base] {
+				if !allowed[fmt.Sprint(v)] {
+					delete(may[base], v)
+				}
+			}
+			last[base] = k
+		}
+		if len(last) == 0 {
+			continue
+		}
+		var np []Ev
+		for k, e := range path {
+			if e.Kind != "stateset" {
+				np = append(np, e)
+				continue
+			}
+			i := strings.LastIndex(e.Note, "|")
+			base := e.Note[:i]
+			if last[base] == k {
+				if kind := verdict(may[base]); kind != "" {
+					e.Kind, e.Note = kind, base
+					np = append(np, e)
+				}
+			}
+		}
+		tr.Paths[pi] = np
 	}
 }
